@@ -454,7 +454,11 @@ def check_world(w, script):
             except UnknownComputation:
                 got = "unknown-computation"
             if got != want and got != "unknown-computation":
-                P.append(("view:replica", "%s is subscribed to replicas of %s: local %r, directory %r" % (a, c, got, want)))
+                key = "view:replica"
+                if set(got) > set(want) and any(op[0] == "unsubscribe_replica" and op[1] == a and op[2] == c for op in script):
+                    # known protocol limitation (the replica twin of the stale host finding), see KNOWN_FINDINGS.json
+                    key = "view:stale-replica-holder-after-unsubscribe-then-resubscribe"
+                P.append((key, "%s is subscribed to replicas of %s: local %r, directory %r" % (a, c, got, want)))
     # (3) callbacks: fold events
     for cid, info in w.cbs.items():
         evs = [e for e in w.events if e[0] == cid]
